@@ -22,7 +22,7 @@ MInit == \E c \in Cfgs, k \in StartKernels :
             /\ cfg = c /\ kernel = k
             /\ desired = [chains |-> [x \in {} |-> <<>>], ins |-> [x \in KCh |-> <<>>], app |-> [x \in KCh |-> <<>>]]
             /\ belief = [stale |-> TRUE, due |-> TRUE]
-            /\ phase = [inApply |-> FALSE, readFailed |-> FALSE, envFail |-> FALSE]
+            /\ phase = [inApply |-> FALSE, readFailed |-> FALSE, envFail |-> FALSE, notified |-> FALSE, consistent |-> TRUE]
             /\ known = {}
             /\ nEdits = 0
 
@@ -33,14 +33,14 @@ MSetApp == \E k \in KCh, rs \in AppMenu : SetApp(k, rs)
 MEdit == nEdits < MaxEdits /\ (EditInApply \/ Idle) /\ nEdits' = nEdits + 1 /\ \E e \in Edits : EditFn(kernel, e) # kernel /\ ExternalEdit(EditFn(kernel, e))
 MTick == belief.stale /\ ~belief.due /\ Tick
 MRestart == Restart
-MApplyBegin == ApplyBegin
+MApplyBegin == Consistent(desired) /\ ApplyBegin
 MReadOk == Read(TRUE)
 MReadFail == ~phase.envFail /\ Read(FALSE)
 \* the reference reconciler writes only with accurate knowledge
 MWriteOk == ~belief.stale /\ Write(TRUE, FALSE, Target(kernel, desired), IdealTouched(kernel, desired))
 MWriteFail == ~phase.envFail /\ Write(FALSE, TRUE, kernel, {})
 \* an implementation that does not look (no reason to) and does nothing
-MApplyEndOk == ((belief.stale /\ ~belief.due) \/ Converged(kernel, desired)) /\ ApplyEnd(TRUE)
+MApplyEndOk == (~ConvergenceDue \/ Converged(kernel, desired)) /\ ApplyEnd(TRUE)
 MApplyEndFail == phase.envFail /\ ApplyEnd(FALSE)
 
 MNext == \/ MEdit
